@@ -88,7 +88,18 @@ def aborts(ctx, reach, fns):
                                 outer = pat_alts(arm["pat"])
                                 if outer and all(x.get("k") == "plit" and x.get("lk") == "str" for x in outer) and {x["v"] for x in outer} <= named:
                                     dead = True
-            documented = dead or (bool(ops) and ops <= DOCUMENTED and s_["what"] in ("todo", "unimplemented"))
+            if not ops:
+                # the operator may have been classified first (`LineKind::classify(op)` .. `match kind { .. }`): the operators that select this path
+                from .. import norm as norm__
+                for conds in norm__.expand_enum_conditions(ix, norm__.path_conditions(ix, node, arms=True)):
+                    cur = None
+                    for c_, pol in conds:
+                        if pol and c_.get("k") == "armpat":
+                            lits = {alt["v"] for alt in pat_alts(c_["pat"]) if alt.get("k") == "plit" and alt.get("lk") == "str"}
+                            if lits:
+                                cur = lits if cur is None else (cur & lits)
+                    ops |= (cur or set())
+            documented = dead or (bool(ops) and ops <= DOCUMENTED and s_["what"] in ("todo", "unimplemented", "unreachable"))
             # OTHER_OPS `panic!("TODO: implement support for {other} operation")` names the op at run time
             ok = documented or s_["key"] in ABORT_ALLOW
             if not ok and p.endswith("parse_line") and s_["what"] == "panic" and "TODO: implement support for" in ctx.facts.lib("patronus").macros.get((node.get("mac") or {}).get("site"), ""):
@@ -186,7 +197,7 @@ def token_indices(ctx, reach, fns):
                 passes_tokens = any(show(peel(a)) in ("tokens", "cont", "&cont", "cont.tokens", "&cont.tokens") or show(peel(a)).endswith("tokens") for a in n["args"])
                 if not passes_tokens:
                     continue
-                g_ = max([v.at(n, ix) for (r, v) in gs if ix.dominates(r, n) and dominates_with_try(r, ix)] + [b for (r, b) in base if r is None or ix.dominates(r, n)] + [0])
+                g_ = max([v.at(n, ix) for (r, v) in gs if (ix.dominates(r, n) or correlated_guarantee(r, n, ix)) and dominates_with_try(r, ix)] + [b for (r, b) in base if r is None or ix.dominates(r, n)] + [0])
                 call_guar.setdefault(callee(n), []).append(g_)
     n_idx = 0
     for p in reach:
@@ -255,6 +266,23 @@ def correlated_guarantee(r, n, ix):
     # the `if` itself must dominate n
     if not ix.dominates(the_if, n):
         return False
+    # the condition tests a classification value (`if !matches!(kind, Kind::A | Kind::B) { require(..)? }`) and n sits in an arm for other variants of it
+    c0 = resolve(peel(the_if["cond"]))
+    neg = False
+    if c0.get("k") == "unary" and c0["op"] == "!":
+        neg, c0 = True, resolve(peel(c0["e"]))
+    if c0.get("k") == "match" and len(c0["arms"]) == 2 and peel(c0["arms"][0]["body"]).get("v") is True and peel(c0["arms"][1]["body"]).get("v") is False and peel(c0["scrut"]).get("k") == "local":
+        tested = {x.get("path") for x in pat_alts(c0["arms"][0]["pat"])}
+        from .. import norm as norm__
+        for cnd, pol in norm__.path_conditions(ix, n, arms=True):
+            if pol and cnd.get("k") == "armpat" and peel(cnd["scrut"]).get("k") == "local" and canon(peel(cnd["scrut"])["id"]) == canon(peel(c0["scrut"])["id"]):
+                here = {x.get("path") for x in pat_alts(cnd["pat"])}
+                if None in here or None in tested:
+                    return False
+                val = True if here <= tested else (False if not (here & tested) else None)
+                if val is None:
+                    return False
+                return (not val) if neg else val
     m, lits = _arm_literals(n, ix)
     if not lits:
         return False
